@@ -187,12 +187,19 @@ def service_yaml(req, settings):
 class Ref:
     """Reachability over the input descriptors, as the property's sentence defines it: listed RPCs (plus the
     polling method of an extended operation service they name), then messages/enums/resource types through
-    fields, nested types, LRO response/metadata types and resource references."""
+    fields, nested types, LRO response/metadata types and resource references.
+
+    A resource reference to type T leads to THE MESSAGE that carries google.api.resource type T whenever the descriptor
+    set holds such a message: file-level google.api.resource_definition entries of the same type (in whichever file, in
+    whichever request order) declare no message and never stand in for it. [twice_file_first] names the types that are
+    also declared at file level in a file that comes strictly BEFORE the file of their message (the input class of the
+    finding selective.resource_declared_twice_file_level_first); it only labels violations, it does not change what is expected."""
 
     def __init__(self, req):
         self.pkg = target_package(req)
         self.kind, self.pb, self.parent, self.file_of, self.children = {}, {}, {}, {}, {}
         self.target_types, self.res_msg, self.methods, self.services = set(), {}, {}, {}
+        file_level_at, msg_at = {}, {}
 
         def walk(m, prefix, fp, parent):
             fqn = f"{prefix}.{m.name}"
@@ -207,9 +214,11 @@ class Ref:
             self.children[fqn] = kids
             return fqn
 
-        for fp in req.proto_file:
+        for fidx, fp in enumerate(req.proto_file):
             tgt = fp.package.startswith(self.pkg)
             before = set(self.kind)
+            for rd in fp.options.Extensions[resource_pb2.resource_definition]:
+                file_level_at.setdefault(rd.type, fidx)
             for e in fp.enum_type:
                 k = f"{fp.package}.{e.name}"
                 self.kind[k], self.parent[k], self.file_of[k] = "enum", None, fp
@@ -218,6 +227,7 @@ class Ref:
                 t = m.options.Extensions[resource_pb2.resource].type
                 if t:
                     self.res_msg.setdefault(t, fq)
+                    msg_at.setdefault(t, fidx)
             if tgt:
                 self.target_types |= set(self.kind) - before
                 for s in fp.service:
@@ -225,6 +235,9 @@ class Ref:
                     self.services[sq] = (fp, s)
                     for m in s.method:
                         self.methods[f"{sq}.{m.name}"] = (fp, s, m)
+
+        self.twice_file_first = {t for t, i in msg_at.items() if t in file_level_at and file_level_at[t] < i}
+        self.twice = {t for t in msg_at if t in file_level_at}
 
     def is_map_entry(self, fqn):
         return self.kind.get(fqn) == "message" and self.pb[fqn].options.map_entry
@@ -261,7 +274,7 @@ class Ref:
                 roots.append(t if "." in t else f"{fp.package}.{t}")
         return roots
 
-    def closure(self, roots, enclosing=False):
+    def closure(self, roots, enclosing=False, skip_res=()):
         seen, todo = set(), list(roots)
         while todo:
             a = todo.pop()
@@ -277,15 +290,15 @@ class Ref:
                     todo.append(f.type_name.lstrip("."))
                 ref = f.options.Extensions[resource_pb2.resource_reference]
                 for t in (ref.type, ref.child_type):
-                    if t and t in self.res_msg:
+                    if t and t in self.res_msg and t not in skip_res:
                         todo.append(self.res_msg[t])
             todo.extend(self.children[a])
         return seen
 
-    def reach(self, listed, enclosing=False):
+    def reach(self, listed, enclosing=False, skip_res=()):
         kept = self.kept_methods(listed)
         roots = [r for m in kept for r in self.method_roots(m)]
-        return kept, self.closure(roots, enclosing)
+        return kept, self.closure(roots, enclosing, skip_res)
 
 
 # =============================================================== API generators
@@ -714,6 +727,59 @@ def lro_metadata_ref_api():
           lro=("ImportBooksResponse", "ImportBooksMetadata"))
     s.rpc("Ping", preq.fqn, pres.fqn, http=("post", "/v1/ping"), body="*")
     return apigen.request([f]), [[f"{pkg}.Library.ImportBooks"]]
+
+
+RESDUP_TYPE = "example.googleapis.com/Shelf"
+
+
+def resource_twice_api(arrangement="a"):
+    """Fixed names (seeded change C16-o): the resource type example.googleapis.com/Shelf is declared TWICE in the target
+    package: by the message Shelf (google.api.resource) and by a file-level google.api.resource_definition. The kept RPC
+    DeleteShelf reaches the resource only through the google.api.resource_reference on DeleteShelfRequest.name (its
+    response is an empty message); only Shelf leads to the nested Shelf.Row, the nested enum Shelf.Kind, the top-level
+    message Theme and the top-level enum Finish. Arrangements (request order of the files):
+      a  resources.proto (message Shelf ...) first, then library.proto (file-level definition, service; imports resources.proto)
+      b  library.proto (file-level definition, service) first, then resources.proto (message Shelf ...); no import either way
+      c  one file library.proto holding both declarations
+      d  as a, plus a second file-level definition of the type in resources.proto itself (message and definition in the
+         earlier file, definition again in the later file)
+    Returns (request, hints)."""
+    pkg = "google.example.library.v1"
+    d = "google/example/library/v1"
+    one_file = arrangement == "c"
+    lib_deps = list(apigen.STD_DEPS)
+    resf = None
+    if not one_file:
+        resf = File(f"{d}/resources.proto", pkg, deps=list(apigen.STD_DEPS))
+        if arrangement in ("a", "d"):
+            lib_deps.append(resf.proto.name)
+    lib = File(f"{d}/library.proto", pkg, deps=lib_deps)
+    home = lib if one_file else resf
+    finish = home.enum("Finish", ["FINISH_UNSPECIFIED", "MATT", "GLOSS"])
+    theme = home.message("Theme")
+    theme.field("colour", 1, "string").field("finish", 2, ("enum", finish))
+    shelf = home.message("Shelf")
+    row = shelf.nested("Row")
+    row.field("height", 1, "int32")
+    kind = shelf.enum("Kind", ["KIND_UNSPECIFIED", "WALL", "FLOOR"])
+    shelf.field("name", 1, "string").field("rows", 2, row.fqn, repeated=True).field("kind", 3, ("enum", kind)).field("theme", 4, theme.fqn)
+    shelf.resource(RESDUP_TYPE, ["shelves/{shelf}"])
+    home.message("Spare").field("x", 1, "string")
+    if arrangement == "d":
+        resf.resource_def(RESDUP_TYPE, ["shelves/{shelf}"])
+    lib.resource_def(RESDUP_TYPE, ["shelves/{shelf}"])
+    dreq = lib.message("DeleteShelfRequest")
+    dreq.field("name", 1, "string", ref=RESDUP_TYPE)
+    dres = lib.message("DeleteShelfResponse")
+    lreq = lib.message("ListThingsRequest")
+    lreq.field("parent", 1, "string")
+    lres = lib.message("ListThingsResponse")
+    lres.field("things", 1, "string", repeated=True)
+    s = lib.service("Library", host="library.example.com")
+    s.rpc("DeleteShelf", dreq.fqn, dres.fqn, http=("delete", "/v1/{name=shelves/*}"))
+    s.rpc("ListThings", lreq.fqn, lres.fqn, http=("get", "/v1/{parent=shelves/*}/things"))
+    files = [lib] if one_file else ([lib, resf] if arrangement == "b" else [resf, lib])
+    return apigen.request(files), [[f"{pkg}.Library.DeleteShelf"]]
 
 
 def dep_package_api(r):
